@@ -29,6 +29,7 @@ namespace vsched
     int preempt_bound = 0;
     int spurious_bound = 0;
     uint64_t max_executions = 0;    // 0 = unlimited
+    std::function<bool()> stop;     // polled every 256 executions; true = stop (stats.capped is set)
     ExploreStats stats;
     std::vector<int> failing;
     // key: state hash -> packed best (preempt, spurious) seen when expanded
@@ -59,6 +60,7 @@ namespace vsched
         std::vector<int> prefix = std::move(stack.back());
         stack.pop_back();
         if(max_executions && stats.executions >= max_executions) { stats.capped = true; return true; }
+        if(stop && (stats.executions & 255u) == 255u && stop()) { stats.capped = true; return true; }
         const bool ok = run_one(prefix);
         ++stats.executions;
         const std::vector<Decision>& dec = decisions();
